@@ -213,3 +213,66 @@ func removeImport(f *ast.File, path string) {
 		gd.Specs = specs
 	}
 }
+
+// instrumentSyncOnly rewrites sync.Mutex/RWMutex to their vsync counterparts and nothing else: the files of the packages
+// driven under the controlled scheduler that are not instrumented statement by statement still must not block on a real
+// lock there (the scheduler would never learn of it: no deadlock report, a hang instead). It returns nil when the file
+// has no such lock.
+func instrumentSyncOnly(path string, src []byte) ([]byte, error) {
+	fset := token.NewFileSet()
+
+	f, err := parser.ParseFile(fset, path, src, parser.ParseComments)
+	if err != nil {
+		return nil, fmt.Errorf("parse: %w", err)
+	}
+
+	syncName := ""
+
+	for _, imp := range f.Imports {
+		if p, _ := strconv.Unquote(imp.Path.Value); p == "sync" {
+			syncName = "sync"
+			if imp.Name != nil {
+				syncName = imp.Name.Name
+			}
+		}
+	}
+
+	if syncName == "" {
+		return nil, nil
+	}
+
+	rewritten, other := false, false
+
+	ast.Inspect(f, func(n ast.Node) bool {
+		if v, ok := n.(*ast.SelectorExpr); ok {
+			if id, ok := v.X.(*ast.Ident); ok && id.Name == syncName && id.Obj == nil {
+				switch v.Sel.Name {
+				case "Mutex", "RWMutex":
+					id.Name = "vsync"
+					rewritten = true
+				default:
+					other = true
+				}
+			}
+		}
+
+		return true
+	})
+
+	if !rewritten {
+		return nil, nil
+	}
+
+	addImport(f, vsyncPath)
+
+	if !other {
+		removeImport(f, "sync")
+	}
+
+	var buf bytes.Buffer
+	if err := format.Node(&buf, fset, f); err != nil {
+		return nil, fmt.Errorf("print: %w", err)
+	}
+
+	return buf.Bytes(), nil
+}
